@@ -8,6 +8,7 @@ configuration block becomes current with `RC` (a `reconfig` step).  Message line
   MS i e1,e2      EffectsStarted        MT i e1,e2      EffectsStopped
   MA i e t1,t2    EffectApplied         MN i e t1,t2    EffectUnapplied
   MC i attr       AttrsValueChanged raised for an overridden attribute (skill level)
+  BS i e mods     warfare-buff modifiers registered for projector (i, e)  (`-` = none)
   MR i attr       public read, prints `v <value>`
   QK              prints `K item attr value` for every cached entry of the configuration's items, then `.`
   X               forget everything dynamic (new solar system)
@@ -40,6 +41,18 @@ def mstepLine (x : MSt) (line : String) : MSt × List String :=
     | some i, some e, some ts => (mdo x (.apply i e ts), []) | _, _, _ => bad
   | ["MN", i, e, ts] => match i.toNat?, e.toInt?, nats? ts with
     | some i, some e, some ts => (mdo x (.unapply i e ts), []) | _, _, _ => bad
+  | ["BS", i, e, ms] =>
+    -- warfare-buff modifiers: `-` or `f,d,x,t,o,a,k,s;...` (8 fields per modifier, `_` for none)
+    let parseM (t : String) : Option Modifier :=
+      match t.splitOn "," with
+      | [f, d, x, ta, o, a, k, sa] => do
+        let f ← f.toNat?; let d ← d.toNat?; let x ← optInt? (if x == "_" then "-" else x); let ta ← ta.toInt?
+        let o ← o.toNat?; let a ← a.toNat?; let k ← optInt? (if k == "_" then "-" else k); let sa ← sa.toInt?
+        pure { filter := f, domain := d, extra := x, tgtAttr := ta, op := o, agg := a, aggKey := k, srcAttr := sa }
+      | _ => none
+    match i.toNat?, e.toInt?, (if ms == "-" then some [] else (ms.splitOn ";").mapM parseM) with
+    | some i, some e, some ms => (mdo x (.buffset i e ms), [])
+    | _, _, _ => bad
   | ["MC", i, a] => match i.toNat?, a.toInt? with | some i, some a => (mdo x (.changed i a), []) | _, _ => bad
   | ["MR", i, a] => match i.toNat?, a.toInt? with
     | some i, some a =>
